@@ -46,7 +46,7 @@ def build_plan(choice: Choice, tier):
             call["chunk"] = 1
         call["n"] = n
         call["lazy"] = d(3, "lazy") == 2
-        call["input_type"] = ["list", "tuple", "iterator", "range-like", "list"][d(5, "input.type")]
+        call["input_type"] = ["list", "tuple", "iterator", "range-like", "list", "deque", "int-only-sequence"][d(7, "input.type")]
         # 'exact': the caller takes exactly len(data) results (zip / islice style) and never asks for more
         call["consume"] = "exact" if d(4, "consume") == 3 else "full"
         calls.append(call)
